@@ -11,7 +11,8 @@ RULE = ("cases: (planar graph, trace, any configuration, 2-6 operations match/ex
         "arbitrary arguments; operations whose documented precondition fails at run time are skipped); the invariant is checked on "
         "every lattice entry after every applied operation; non-trivial = >= 2 applied operations on a lattice with >= 2 non-empty "
         "columns; classes per operation pair; distinct = case JSON")
-ASSUMPTIONS = ["planar metric, InMemMap; graphs <= 12 nodes, traces <= 12 points",
+ASSUMPTIONS = ["half of the histories run with the package logger at DEBUG (stopped candidates are then materialised in the lattice)",
+               "planar metric, InMemMap; graphs <= 12 nodes, traces <= 12 points",
                "'live' is read as 'not stopped' (the delayed-based reading is false by design: pruning re-postpones an expanded parent)",
                "widen only with a width already set and not below it; continue_with_distance only after an early stop with edge states"]
 TOLERANCES = {"logprob": 1e-12}
@@ -19,6 +20,27 @@ BUDGET = {"quick": {"shards": 8, "examples": 500}, "thorough": {"shards": 16, "e
 
 
 def check_case(case, ctx):
+    import logging
+    if not case.get("debug"):
+        return _check(case, ctx)
+    # the same history with the package logger at DEBUG: stopped candidates are then kept in the lattice for inspection,
+    # which is when the 'live only if its predecessor is live' clause has something to say
+    lg = logging.getLogger(base.LOGGER_NAME)
+    old_level, old_handlers, old_prop = lg.level, list(lg.handlers), lg.propagate
+    h = logging.NullHandler()
+    try:
+        lg.addHandler(h)
+        lg.propagate = False
+        lg.setLevel(logging.DEBUG)
+        with base.quiet():
+            return _check(case, ctx)
+    finally:
+        lg.setLevel(old_level)
+        lg.handlers[:] = old_handlers
+        lg.propagate = old_prop
+
+
+def _check(case, ctx):
     seen = {"entries": 0}
 
     def after(matcher, op, states, idx, cur):
@@ -27,7 +49,9 @@ def check_case(case, ctx):
     matcher, res, cur, applied = common.apply_history(case, after=after)
     cols = sum(1 for c in matcher.lattice.values() if any(len(d) for d in c.o)) if matcher.lattice else 0
     names = [o[0] for o in applied]
-    classes = ["family:" + case["config"]["family"], "applied:%d" % min(len(applied), 4)]
+    classes = ["family:" + case["config"]["family"], "applied:%d" % min(len(applied), 4), "loglevel:" + ("DEBUG" if case.get("debug") else "default")]
+    if matcher.lattice and any(m.stop for _i, _ne, _k, m in base.lattice_entries(matcher)):
+        classes.append("stopped-entries-in-lattice")
     for a, b in zip(names, names[1:]):
         classes.append(f"{a}->{b}")
     ctx.record(case, len(applied) >= 2 and cols >= 2, sorted(set(classes)), {"applied": applied, "entries": seen["entries"]})
@@ -43,5 +67,6 @@ def strategy(tier):
             cfg["max_lattice_width"] = draw(st.sampled_from([1, 2, 3]))
         case["ops"] = draw(common.history_ops(len(case["trace"]), with_cwd=True, max_ops=5))
         case["unique"] = draw(st.booleans())
+        case["debug"] = draw(st.booleans())
         return case
     return _s()
